@@ -445,6 +445,30 @@ pub fn cyclic_case(o: &Opts, case_seed: u64) -> CaseReport {
     cfg.lru_fix = o.retain;
     let mut prog = gen_prog(&mut rng, &cfg);
     let mut hist = gen_history(&mut rng, &cfg, &prog);
+    if o.prop == "C15" {
+        // switch the guarded non-monotone operators on, let the cycles diverge, then switch them off:
+        // the same functions must converge in the later revision
+        let all: Vec<Step> = (0..prog.nodes.len()).map(|n| Step::Req(Req::Node(n))).collect();
+        let odd = (rng.below(2048) as u16) * 2 + 1;
+        let even = (rng.below(2048) as u16) * 2;
+        // in a diverging revision either every function is requested or just one entry point
+        // (so that provisional memos of inner heads are left behind by the panic)
+        let mut some = |rng: &mut Rng| -> Vec<Step> {
+            if rng.chance(1, 2) {
+                all.clone()
+            } else {
+                vec![Step::Req(Req::Node(rng.below(prog.nodes.len())))]
+            }
+        };
+        let mut h = vec![Step::Set { cell: 0, field: 0, val: odd, dur: None }];
+        h.extend(some(&mut rng));
+        h.extend(hist.drain(..));
+        h.push(Step::Set { cell: 0, field: 0, val: odd, dur: None });
+        h.extend(some(&mut rng));
+        h.push(Step::Set { cell: 0, field: 0, val: even, dur: None });
+        h.extend(all.iter().cloned());
+        hist = h;
+    }
     if o.sub == "demo12" {
         // experiment: the exact shape and history of a known-tricky case
         let mut r2 = Rng::new(1);
@@ -481,6 +505,7 @@ pub fn cyclic_case(o: &Opts, case_seed: u64) -> CaseReport {
     let mut first_req_in_rev = true;
     let mut mismatch: Option<(usize, Outcome)> = None;
     let mut panicked_in_rev = false;
+    let mut diverged_before = false;
     for (si, step) in hist.iter().enumerate() {
         match step {
             Step::Req(Req::Node(n)) => {
@@ -507,6 +532,9 @@ pub fn cyclic_case(o: &Opts, case_seed: u64) -> CaseReport {
                 match cyc_expect(&o.prop, &prog, &runner.inp, *n) {
                     Some(exp) => {
                         rep.counts.inc("decided_requests");
+                        if diverged_before && info.in_cycle {
+                            rep.counts.inc("cyclic_requests_decided_after_divergence");
+                        }
                         let may_cycle_panic = match &exp {
                             Expect::Panic(PanicClass::Cycle) => true,
                             Expect::OneOf(xs) => xs.contains(&Expect::Panic(PanicClass::Cycle)),
@@ -539,7 +567,10 @@ pub fn cyclic_case(o: &Opts, case_seed: u64) -> CaseReport {
                         // C15: non-monotone now. Accept value / TooMany / propagated.
                         match &got {
                             Outcome::Val(_) => rep.counts.inc("nonmono_value"),
-                            Outcome::Panic(PanicClass::TooMany, _) => rep.counts.inc("too_many_panics"),
+                            Outcome::Panic(PanicClass::TooMany, _) => {
+                                rep.counts.inc("too_many_panics");
+                                diverged_before = true;
+                            }
                             Outcome::Panic(PanicClass::Propagated, _) => rep.counts.inc("propagated_panics"),
                             other => {
                                 rep.violations.push(format!(
@@ -734,6 +765,92 @@ pub fn classify_cyc_mismatch(
         .iter()
         .all(|x| matches!(x.kind, Kind::Fix | Kind::FixJ));
     if all_fix {
+        // F17: in some earlier revision the bodies were non-monotone (the cycle's result there is
+        // *some* fixpoint or garbage); now they are monotone, a cycle member was re-executed and
+        // its value changed although none of its dependencies carries a newer stamp, so a
+        // function that read it is validated green with the old value.
+        {
+            let mut hist_inp = refint::Inputs {
+                cells: vec![[0, 0]; prog.ncells],
+                unt: inp.unt.clone(),
+            };
+            let mut nonmono_before = false;
+            for (_, _, r) in &log[..start] {
+                match r {
+                    Rec::SetField(c, f, v, _) => hist_inp.cells[*c as usize][*f as usize] = *v,
+                    Rec::WriteDone(..) => {
+                        if !is_monotone_now(prog, &hist_inp) {
+                            nonmono_before = true;
+                        }
+                    }
+                    _ => {}
+                }
+            }
+            // the state before the last write group
+            if !is_monotone_now(prog, &hist_inp) {
+                nonmono_before = true;
+            }
+            if nonmono_before && is_monotone_now(prog, inp) && !executed_now(n) && validated_now(n) {
+                // values handed out for each callee before and after the last write
+                let observed = |c: usize, slice: &[Stamped]| -> Option<u16> {
+                    let mut last = None;
+                    let mut pending_top: Option<usize> = None;
+                    for (_, _, r) in slice {
+                        match r {
+                            Rec::Read(ReadK::Call(_, m, _), v) if *m as usize == c => last = Some(*v),
+                            Rec::Call(_, Req::Node(x)) => pending_top = Some(*x),
+                            Rec::Ret(_, Outcome::Val(v)) => {
+                                if pending_top.take() == Some(c) {
+                                    last = Some(*v);
+                                }
+                            }
+                            _ => {}
+                        }
+                    }
+                    last
+                };
+                // n's memo was computed from callee values that salsa no longer hands out
+                let execs_all = mon::executions(log);
+                let last_n = execs_all
+                    .iter()
+                    .rev()
+                    .find(|e| e.act.node as usize == n && e.value.is_some());
+                let changed_callee = match last_n {
+                    None => false,
+                    Some(e) => {
+                        // best estimate of the value each function's memo holds now: its last
+                        // completed execution (joined by cycle_fn where that applies) or, later,
+                        // what salsa handed out for it
+                        let mut cur_val: Vec<Option<u16>> = vec![None; prog.nodes.len()];
+                        let mut pending_top: Option<usize> = None;
+                        for (_, _, r) in log {
+                            match r {
+                                Rec::Exit(a, v) => cur_val[a.node as usize] = Some(*v),
+                                Rec::CycleFn(m, _, last, new) => cur_val[*m] = Some(*last | *new),
+                                Rec::Read(ReadK::Call(_, c, _), v) => cur_val[*c as usize] = Some(*v),
+                                Rec::Call(_, Req::Node(x)) => pending_top = Some(*x),
+                                Rec::Ret(_, Outcome::Val(v)) => {
+                                    if let Some(x) = pending_top.take() {
+                                        cur_val[x] = Some(*v);
+                                    }
+                                }
+                                _ => {}
+                            }
+                        }
+                        let _ = &observed;
+                        e.reads.iter().any(|(rk, v)| match rk {
+                            ReadK::Call(_, c, _) if *c as usize != n => {
+                                cur_val[*c as usize].is_some_and(|now| now != *v)
+                            }
+                            _ => false,
+                        })
+                    }
+                };
+                if changed_callee {
+                    return Some("C15/cycle_value_changes_after_nonmonotone_revision_without_new_stamp");
+                }
+            }
+        }
         let lfp = refint::lfp_kleene(prog, inp, 400)?;
         let execs = mon::executions(&log[..start]);
         fn reads_input(e: &Expr, c: usize, f: usize) -> bool {
